@@ -96,8 +96,42 @@ def shard(ctx, arg):
         ctx.count("three_digit_regions", hi - lo)
 
 
+def histories(ctx):
+    """multi-step use of ONE configuration object: parse / set_language_and_region / read, in random order; after every step the reported
+    string, the locale word and equality with a freshly built configuration must agree with the last locale set"""
+    from androguard.core.axml import ARSCResTableConfig
+    rng = ctx.rng("c30-hist")
+    codes = ["en", "de", "fr", "zh", "fil", "haw", "ast", "tzm", "kok", "es"]
+    regs = ["", "US", "DE", "419", "PH", "001", "ZZ", "A1"]
+    for h in range(300 if ctx.quick else 5000):
+        lang, reg = rng.choice(codes), rng.choice(regs)
+        c = ARSCResTableConfig(io.BytesIO(config_bytes(word(lang, reg)))) if rng.random() < 0.5 else ARSCResTableConfig(None, locale=tag(lang, reg))
+        hist = [("init", tag(lang, reg))]
+        for step in range(rng.randrange(1, 8)):
+            r = rng.random()
+            if r < 0.5:
+                lang, reg = rng.choice(codes), rng.choice(regs)
+                c.set_language_and_region(tag(lang, reg))
+                hist.append(("set", tag(lang, reg)))
+            elif r < 0.75:
+                c.get_qualifier()
+                hist.append(("get_qualifier",))
+            else:
+                hist.append(("read",))
+            ctx.ev()
+            ctx.count("history_steps")
+            got = c.get_language_and_region()
+            fresh = ARSCResTableConfig(None, locale=tag(lang, reg))
+            if got != tag(lang, reg) or c.locale != word(lang, reg) or not (c == fresh):
+                ctx.violation("history-stale-or-wrong-locale", "after a sequence of set/read steps on one configuration object the reported locale is not the last one set",
+                              {"history": hist, "got": got, "want": tag(lang, reg), "word": "%08x" % c.locale, "want_word": "%08x" % word(lang, reg)})
+                break
+        ctx.sig("hist", len(hist), len(lang), len(reg))
+
+
 def run(ctx):
     from androguard.core.axml import ARSCResTableConfig
+    histories(ctx)
     ctx.rule = ("configs parsed from bytes written with AOSP packing -> get_language_and_region, then ARSCResTableConfig(locale=<string>) must give the same "
                 "locale word (and ==/hash). two-letter: all 676 languages x (no region + 36^2 two-char [A-Z0-9] regions) (quick: 120 sampled regions per language); "
                 "all 26^3 packed three-letter languages x {none, random 2-char, random 3-digit} regions; all 1000 three-digit regions; default locale. "
@@ -119,3 +153,4 @@ def run(ctx):
     ctx.sample({"lang": "es", "region": "419", "word": "%08x" % word("es", "419"), "string": "es-r419"})
     ctx.require_counter("parse_then_get_language_and_region", 1000)
     ctx.require_counter("construct_from_locale_string", 1000)
+    ctx.require_counter("history_steps", 300)
